@@ -166,22 +166,26 @@ func activeTol() pgen.Tol {
 	return pgen.Tol{PtrEmpty: evid.KnownActive(pgen.ClassPtrEmpty), BoolWZ: evid.KnownActive(pgen.ClassBoolWZ)}
 }
 
-// preClass names the class of a case whose trigger condition can be decided
-// before execution and whose failure is then certain; two of them can kill
-// the process (memory corruption), so they cannot be classified after the
-// fact.
-func preClass(c Case) string {
-	if pgen.HasFixedTagOnPointer(&c.Type) {
+// activePreClass names the listed class of a case whose trigger condition
+// can be decided before execution and whose failure is then certain; two of
+// them can kill the process (memory corruption), so they cannot be classified
+// after the fact:
+//   - fixed-tag-on-pointer-field;
+//   - repeated-over-10-elements: decoding the 11th element of a repeated field
+//     always reaches growSlice with len == cap == 10; the mis-linked copy is a
+//     recoverable nil dereference for pointer-free elements but a fatal
+//     "bulkBarrierPreWrite: unaligned arguments" when the GC is marking;
+//   - map-entry-length-varint-boundary.
+// The predicates rebuild the value, so they are only evaluated for classes
+// that are listed as known.
+func activePreClass(c Case) string {
+	if evid.KnownActive(pgen.ClassFixedPtr) && pgen.HasFixedTagOnPointer(&c.Type) {
 		return pgen.ClassFixedPtr
 	}
-	// decoding the 11th element of a repeated field always reaches growSlice
-	// with len == cap == 10; the mis-linked copy is a recoverable nil
-	// dereference for pointer-free elements but a fatal "bulkBarrierPreWrite:
-	// unaligned arguments" when the GC is marking and elements hold pointers
-	if maxRep(c) > 10 {
+	if evid.KnownActive(pgen.ClassRepOver10) && maxRep(c) > 10 {
 		return pgen.ClassRepOver10
 	}
-	if mapEntryBoundary(c) {
+	if evid.KnownActive(pgen.ClassMapEntryLen) && mapEntryBoundary(c) {
 		return pgen.ClassMapEntryLen
 	}
 	return ""
@@ -263,7 +267,7 @@ func minimizeCase(c Case, f *evid.Failure) (Case, *evid.Failure) {
 	best := f
 	d, r := pgen.Minimize(c.Type, c.Value, 3000, func(d *pgen.TypeDesc, r *pgen.Recipe) bool {
 		c2 := Case{Type: *d, Value: *r, ByPtr: c.ByPtr}
-		if cls := preClass(c2); cls != "" {
+		if cls := activePreClass(c2); cls != "" {
 			return false
 		}
 		f2, _ := checkCase(c2, activeTol())
@@ -293,7 +297,7 @@ type fataler interface {
 // bookkeeping. It reports whether the case was executed.
 func run(t fataler, test string, c Case) {
 	t.Helper()
-	if cls := preClass(c); cls != "" && evid.KnownActive(cls) {
+	if cls := activePreClass(c); cls != "" {
 		evid.Excluded(cls)
 		return
 	}
@@ -581,6 +585,43 @@ func TestRoundTrip(t *testing.T) {
 				evid.Sample(nil)
 			}
 			run(rt, "RoundTrip", c)
+		}
+	})
+}
+
+// TestBigRepeated: values with a repeated field of 1001..3000 (thorough 5000)
+// cheap elements, so that decoding grows the slice past its initial capacity
+// of 10 eight or nine times. Skipped (and counted) while the class
+// repeated-over-10-elements is listed.
+func TestBigRepeated(t *testing.T) {
+	o := genOpts()
+	o.ForceBigRep = true
+	evid.Check(t, "BigRepeated", 70, func(rt *rapid.T) {
+		if evid.KnownActive(pgen.ClassRepOver10) {
+			evid.Excluded(pgen.ClassRepOver10)
+			return
+		}
+		c := Case{Type: pgen.GenTypeBigSlice(rt, o)}
+		tj, _ := json.Marshal(&c.Type)
+		for i := 0; i < 4; i++ {
+			c.Value = pgen.GenValue(rt, &c.Type, o)
+			c.ByPtr = pgen.Uniform(rt, "byptr", 4) == 0
+			evid.Eval(1)
+			set := map[string]bool{}
+			typeLabels(&c.Type, set)
+			var v reflect.Value
+			pgen.Call(func() { v = pgen.Build(&c.Type, &c.Value) })
+			if v.IsValid() {
+				valueLabels(v, set, 0)
+				vj, _ := json.Marshal(&c.Value)
+				evid.NonTrivial(evid.Hash(tj, vj, []byte{2}))
+			}
+			for k := range set {
+				evid.Label(k)
+			}
+			evid.Label("values")
+			evid.Label("values.big-repeated")
+			run(rt, "BigRepeated", c)
 		}
 	})
 }
